@@ -167,11 +167,11 @@ Section Store.
   Notation fn := (Run.fn col_of syncs).
 
   (* ---------------------------------------------------------------- snapshot *)
-  Lemma snapshot_in : forall c ck (docs : list doc) idx e,
-    In e (snapshot col_of c ck docs idx) <->
-    exists p, In p idx /\ col_of (fst p) = c /\ ck < snd p /\ e = mkEv (fst p) (snd p) (tomb_at docs (fst p)).
+  Lemma snapshot_in : forall c ck rg (docs : list doc) idx e,
+    In e (snapshot col_of syncs fixed c ck rg docs idx) <->
+    exists p, In p idx /\ col_of (fst p) = c /\ ck < snd p /\ e = mkEv (fst p) (snd p) (skip_at col_of syncs fixed rg docs (fst p)).
   Proof.
-    intros c ck docs idx e. unfold snapshot. rewrite in_flat_map. split.
+    intros c ck rg docs idx e. unfold snapshot. rewrite in_flat_map. split.
     - intros [p [Hp He]]. destruct (col_of (fst p) =? c) eqn:E1; [|destruct He].
       destruct (ck <? snd p) eqn:E2; cbn in He; [|destruct He]. destruct He as [<-|[]].
       exists p. apply N.eqb_eq in E1. apply N.ltb_lt in E2. auto.
@@ -179,9 +179,9 @@ Section Store.
       apply N.eqb_eq in E1. apply N.ltb_lt in E2. rewrite E1, E2. left. reflexivity.
   Qed.
 
-  Lemma snapshot_sorted : forall c ck (docs : list doc) idx, StronglySorted casl idx -> StronglySorted evl (snapshot col_of c ck docs idx).
+  Lemma snapshot_sorted : forall c ck rg (docs : list doc) idx, StronglySorted casl idx -> StronglySorted evl (snapshot col_of syncs fixed c ck rg docs idx).
   Proof.
-    intros c ck docs idx H. induction H as [|p idx Hs IH Hf]; cbn; [constructor|].
+    intros c ck rg docs idx H. induction H as [|p idx Hs IH Hf]; cbn; [constructor|].
     destruct ((col_of (fst p) =? c) && (ck <? snd p)); cbn; [|exact IH].
     constructor; [exact IH|]. apply Forall_forall. intros e He. apply snapshot_in in He.
     destruct He as [q [Hq [_ [_ ->]]]]. rewrite Forall_forall in Hf. apply (Hf q Hq).
@@ -284,13 +284,13 @@ Section Store.
     destruct (d_id d =? id); [split; [apply after_id | apply after_cur] | split; reflexivity].
   Qed.
 
-  Lemma start_queue : forall cs ck (docs : list doc) idx c e,
-    In e (qget (map (fun c0 => (c0, snapshot col_of c0 (lookup ck c0) docs idx)) cs) c) -> col_of (e_id e) = c /\ In c cs.
+  Lemma start_queue : forall cs ck rg (docs : list doc) idx c e,
+    In e (qget (map (fun c0 => (c0, snapshot col_of syncs fixed c0 (lookup ck c0) rg docs idx)) cs) c) -> col_of (e_id e) = c /\ In c cs.
   Proof.
-    intros cs ck docs idx c e He. destruct (in_dec N.eq_dec c cs) as [Hc|Hc].
-    - rewrite (qget_map_in (fun c0 => snapshot col_of c0 (lookup ck c0) docs idx) cs c Hc) in He.
+    intros cs ck rg docs idx c e He. destruct (in_dec N.eq_dec c cs) as [Hc|Hc].
+    - rewrite (qget_map_in (fun c0 => snapshot col_of syncs fixed c0 (lookup ck c0) rg docs idx) cs c Hc) in He.
       apply snapshot_in in He. destruct He as [p [_ [Hp [_ ->]]]]. cbn. auto.
-    - rewrite (qget_map_notin (fun c0 => snapshot col_of c0 (lookup ck c0) docs idx) cs c Hc) in He. destruct He.
+    - rewrite (qget_map_notin (fun c0 => snapshot col_of syncs fixed c0 (lookup ck c0) rg docs idx) cs c Hc) in He. destruct He.
   Qed.
 
   Lemma binv_step : forall st op, BInv st -> BInv (step st op).
@@ -314,7 +314,7 @@ Section Store.
       unfold do_start.
       assert (G : forall (cs : list N) (ck : bool), BInv (mkR (r_docs st) (r_idx st) (r_clock st) MRunning cs (if ck then r_pchanged st else 0) (if ck then r_pckpt st else [])
                   (if ck then r_rid st else r_rid st + 1) regen (r_hasall st || null cols)
-                  (map (fun c => (c, snapshot col_of c (lookup (if ck then r_pckpt st else []) c) (r_docs st) (r_idx st))) cs)
+                  (map (fun c => (c, snapshot col_of syncs fixed c (lookup (if ck then r_pckpt st else []) c) regen (r_docs st) (r_idx st))) cs)
                   (if ck then r_pckpt st else []) (if ck then r_pchanged st else 0) (r_ps st) (r_pseq st) (r_log st) (r_sel st ++ cs) (r_dirty st) (r_alloc st))).
       { intros cs ck. constructor; cbn; try apply B.
         - intros c e He. apply start_queue in He. exact He.
@@ -328,7 +328,7 @@ Section Store.
       { intros c' e' He'. destruct (N.eq_dec c c') as [<-|Hne].
         - rewrite qget_qset_same in He' by (rewrite Eq; discriminate). apply (b_queue st B). rewrite Eq. right. exact He'.
         - rewrite qget_qset_other in He' by exact Hne. apply (b_queue st B). exact He'. }
-      destruct (e_tomb e).
+      destruct (e_skip e).
       + constructor; cbn; try apply B; [exact Hq | intros _; exact Hcols].
       + destruct (visit_wrote col_of syncs fixed (r_regen st) s (e_id e) (r_docs st)) eqn:Ew.
         * constructor; cbn.
@@ -358,12 +358,17 @@ Section Store.
   Lemma binv_run : forall ops st, BInv st -> BInv (rrun empty col_of syncs allcols fixed st ops).
   Proof. induction ops as [|op ops IH]; intros st B; cbn; [exact B | apply IH, binv_step, B]. Qed.
 
+End Store.
+
+Arguments BInv {body}.
+
+Section Init.
   (* the initial state built from a list of documents with distinct ids *)
-  Lemma idx_from_props : forall (db : list doc) n, 0 < n -> NoDup (map (@d_id body) db) ->
+  Lemma idx_from_props : forall (body : Type) (db : list (doc body)) n, 0 < n -> NoDup (map (@d_id body) db) ->
     StronglySorted casl (idx_from n db) /\ (forall p, In p (idx_from n db) -> n <= snd p < n + N.of_nat (length db)) /\
     map fst (idx_from n db) = map (@d_id body) db.
   Proof.
-    induction db as [|d db IH]; intros n Hn Hnd; cbn [idx_from length map].
+    intros body. induction db as [|d db IH]; intros n Hn Hnd; cbn [idx_from length map].
     - split; [constructor|]. split; [intros p []|reflexivity].
     - inversion Hnd as [|x l Hx Hnd']; subst. destruct (IH (n + 1) ltac:(lia) Hnd') as [H1 [H2 H3]]. split; [|split].
       + constructor; [exact H1|]. apply Forall_forall. intros p Hp. apply H2 in Hp. unfold casl. cbn. lia.
@@ -371,9 +376,9 @@ Section Store.
       + cbn. rewrite H3. reflexivity.
   Qed.
 
-  Lemma binv_init : forall (db : list doc) ps pseq, NoDup (map (@d_id body) db) -> BInv (rinit db ps pseq).
+  Lemma binv_init : forall (body : Type) (col_of : N -> N) (db : list (doc body)) ps pseq, NoDup (map (@d_id body) db) -> BInv col_of (rinit db ps pseq).
   Proof.
-    intros db ps pseq Hnd. destruct (idx_from_props db 1 ltac:(lia) Hnd) as [H1 [H2 H3]].
+    intros body col_of db ps pseq Hnd. destruct (idx_from_props body db 1 ltac:(lia) Hnd) as [H1 [H2 H3]].
     constructor; cbn.
     - exact H1.
     - intros p Hp. apply H2 in Hp. lia.
@@ -384,6 +389,5 @@ Section Store.
     - intros c e [].
     - discriminate.
   Qed.
-End Store.
+End Init.
 
-Arguments BInv {body}.
